@@ -56,7 +56,9 @@ it.  For every entry index (all of the index type), through the code as it is af
                         entry, the complete file's answer Spec.dynGet (..) (linkedTable img i) k or - when the linked
                         string table's data is not in the prefix - Spec.dynGet (..) none k (string-valued tags come
                         back false with the complete file's tag and value; `DynPrefix.getEntry_str`: a data-less
-                        linked section answers like none).
+                        linked section answers like none).  Non-vacuity computed on prefixes that DO load
+                        (`exDynView`, image `exImg4`): 250 bytes -> count 1, entry 0 = (DT_NULL, 0, ""), entry 1 refused;
+                        266 bytes -> count 3, DT_NEEDED false with tag/value intact; 269 bytes -> the file.
 Partial (what is NOT a theorem, covered by correspondence + oracle only): the PT_NOTE segment accessor on a prefix
 (`C17.prefix_sound_segment` says the segments of a successfully loaded prefix are the complete file's; the composition
 with segment_notes_reports_spec is not written out), modinfo / verneed / verdef / by-name / by-value / resolved
